@@ -51,13 +51,28 @@ def _tag_cell(v):
     return v
 
 
+def _expand_map(j):
+    """`x.map({k: v, (k1, k2): w}, default=d)` is the case expression `ColExpr.map` builds:
+    conditions `x.is_in(k…)`, default `d` or `x` itself"""
+    if isinstance(j, list):
+        return [_expand_map(x) for x in j]
+    if isinstance(j, dict):
+        if "mapx" in j:
+            x = _expand_map(j["mapx"])
+            d = j.get("default")
+            return {"case": [[{"fn": "is_in", "args": [x] + [_expand_map(k) for k in ks]}, _expand_map(v)] for ks, v in j["pairs"]],
+                    "default": _expand_map(d) if d is not None else x}
+        return {k: _expand_map(v) for k, v in j.items()}
+    return j
+
+
 def to_driver_program(program: dict, real_obs: list[dict] | None = None, with_data: bool = False) -> dict:
     p = copy.deepcopy(program)
     by_id = {o["id"]: o for o in (real_obs or [])}
     for st in p["stmts"]:
         if st["op"] == "join" and st["id"] in by_id and "set_order" in by_id[st["id"]]:
             st["set_order"] = by_id[st["id"]]["set_order"]
-    p["stmts"] = [_tag_floats(s) for s in p["stmts"]]
+    p["stmts"] = [_tag_floats(_expand_map(s)) for s in p["stmts"]]
     if with_data:
         p["tables"] = [dict(name=t["name"], cols=[dict(name=c["name"], dtype=c["dtype"], vals=[_tag_cell(x) for x in c["vals"]]) for c in t["cols"]])
                        for t in p["tables"]]
